@@ -140,6 +140,25 @@ def readCfg (kv : List (String × String)) : Cfg :=
   { fusedev := getD kv "t" == "fusedev", cap := getNatD kv "cap",
     minor := getNatD kv "pre_minor" 33, hasVuReq := getNatD kv "vu" == 1, pagesize := 4096 }
 
+/-- guest pages (4 KiB) touched by the first `n` bytes of the writable area, whose descriptors
+    are `(address, length)` in chain order — what dirty tracking must report (C17) -/
+def dirtyPages (segs : List (Nat × Nat)) (n : Nat) : List Nat :=
+  let (_, pages) := segs.foldl (fun (acc : Nat × List Nat) (a, l) =>
+    let (rem, ps) := acc
+    let k := min rem l
+    if k == 0 then (rem, ps)
+    else (rem - k, ps ++ (List.range ((a + k - 1) / 4096 - a / 4096 + 1)).map (· + a / 4096))) (n, [])
+  (pages.foldl (fun acc p => if acc.contains p then acc else acc ++ [p]) []).mergeSort (· ≤ ·)
+
+def readWaddr (s : String) : List (Nat × Nat) :=
+  if s.isEmpty then [] else
+  (s.splitOn ",").filterMap fun it =>
+    match it.splitOn ":" with
+    | [a, l] => match a.toNat?, l.toNat? with
+      | some x, some y => some (x, y)
+      | _, _ => none
+    | _ => none
+
 def runNotify (kv : List (String × String)) : String :=
   let cap := getNatD kv "cap"
   let (o, r) := match getD kv "notify" with
@@ -156,6 +175,9 @@ def runLine (line : String) (async : Bool) : String :=
   | some req =>
     let cfg := readCfg kv
     let fs := mkFs kv
-    if async then showARes (SrvAsync.handle cfg fs req) else showRes (Srv.handle cfg fs req)
+    if async then showARes (SrvAsync.handle cfg fs req)
+    else
+      let r := Srv.handle cfg fs req
+      showRes r ++ " dirty=" ++ showNatList (dirtyPages (readWaddr (getD kv "waddr")) r.out.area.length)
 
 end Fbr.SrvShow
